@@ -19,7 +19,8 @@ class Prop(PropBase):
             ">=0x80, write sizes 0..64 KiB, many small writes) is executed in a child whose terminal is bound to the real "
             "terminalpp::stdout_channel; the parent reads the child's stdout pipe to EOF and compares it byte for byte "
             "with (a) the bytes the capturing test channel received for the same operations in the executor and (b) the "
-            "model's output. Non-trivial: the script writes at least one byte; distinct by script text.")
+            "model's output; large writes (70 KB - 1 MB) are additionally made while the pipe is full and SIGUSR1 is delivered "
+            "repeatedly to the blocked writer (short write(2) counts) with the parent reading slowly. Non-trivial: the script writes at least one byte; distinct by script text.")
     ASSUMPTIONS = ["OS pipe and iostream flushing at process exit are observed, not proved (level: partial for the runtime)"]
 
     @staticmethod
@@ -95,5 +96,47 @@ class Prop(PropBase):
                                  "stdout_hex": got[max(0, first - 8):first + 24].hex(), "expected_hex": exp[max(0, first - 8):first + 24].hex(),
                                  "stdout_len": len(got), "expected_len": len(exp), "model_agrees_with_capture": model.get(s_) == exp,
                                  "stderr": p.stderr.decode("utf-8", "replace")[-500:]})
-        return {"children_run": len(scripts), "bytes_expected": nbytes, "distinct_nontrivial_scripts": len(nontrivial),
+        # ---- writes interrupted by signals: the pipe is allowed to fill, SIGUSR1 arrives while the child is blocked in
+        # the middle of a large write (which then returns a short count), the parent reads slowly
+        import signal
+        import time as _t
+        rr = __import__("random").Random(rng.random())
+        storm = []
+        for n in ((200000, 70000) if tier == "quick" else (200000, 70000, 1000000, 65537, 131072)):
+            data = [rr.randrange(256) for _ in range(n)]
+            storm.append("T 0 ; wr 4 104 101 97 100 ; wr %d %s ; wr 4 116 97 105 108" % (n, " ".join(map(str, data))))
+        interrupted = 0
+        if ctx["exe"]:
+            rc, ans, err = build.run_lines(ctx["exe"], storm)
+            env2 = dict(env, VERIF_SIGNALS="1")
+            for s_, a_ in zip(storm, ans):
+                exp = flat(a_)
+                p = subprocess.Popen([child], stdin=subprocess.PIPE, stdout=subprocess.PIPE, stderr=subprocess.PIPE, env=env2)
+                p.stdin.write((s_[1:].strip() + "\n").encode())
+                p.stdin.close()
+                _t.sleep(0.4)                      # the child parses the script and blocks with the pipe full
+                got = b""
+                sent = 0
+                while True:
+                    if p.poll() is None and sent < 400:
+                        try:
+                            os.kill(p.pid, signal.SIGUSR1)
+                            sent += 1
+                        except ProcessLookupError:
+                            pass
+                    chunk = p.stdout.read1(3000) if hasattr(p.stdout, "read1") else p.stdout.read(3000)
+                    if not chunk:
+                        break
+                    got += chunk
+                p.wait(timeout=120)
+                interrupted += sent
+                nbytes += len(exp)
+                nontrivial.add(s_)
+                if got != exp or p.returncode != 0:
+                    first = next((i for i, (x, y) in enumerate(zip(got, exp)) if x != y), min(len(got), len(exp)))
+                    failures.append({"what": "child stdout differs from the capturing channel when writes are interrupted by signals",
+                                     "signature": "C14 stdout-differs-under-signals", "lines": [s_[:300] + " …"], "returncode": p.returncode,
+                                     "first_difference_at": first, "stdout_len": len(got), "expected_len": len(exp), "signals_sent": sent,
+                                     "stderr": p.stderr.read().decode("utf-8", "replace")[-500:]})
+        return {"children_run": len(scripts) + len(storm), "signals_sent_to_blocked_writers": interrupted, "bytes_expected": nbytes, "distinct_nontrivial_scripts": len(nontrivial),
                 "samples": samples, "failures": failures}
